@@ -201,7 +201,7 @@ func (fv *FuncVerifier) activeMods() []*ModClause {
 
 func (fv *FuncVerifier) hasModSpec() bool {
 	for _, m := range fv.activeMods() {
-		if m.Nothing || m.Pred != nil {
+		if m.Nothing || m.Pred != nil || len(m.Objs) > 0 {
 			return true
 		}
 	}
@@ -212,7 +212,7 @@ func (fv *FuncVerifier) hasModSpec() bool {
 func (fv *FuncVerifier) modifiesNothing() bool {
 	nothing := false
 	for _, m := range fv.activeMods() {
-		if m.Pred != nil {
+		if m.Pred != nil || len(m.Objs) > 0 {
 			return false
 		}
 		if m.Nothing {
@@ -242,23 +242,84 @@ func (fv *FuncVerifier) ghostAllowed(h string) bool {
 	return false
 }
 
-// modPred: the function's own modifies predicate at object r, evaluated in the entry state.
-func (fv *FuncVerifier) modPred(e *Enc, r string) string {
+// modPred: the function's own modifies predicate at object r (restricted to
+// clauses that can concern heap `heap`; "" = all), evaluated in the entry state.
+func (fv *FuncVerifier) modPred(e *Enc, r string, heap string) string {
+	env := fv.paramEnv(e)
+	env.curVer = map[string]int{}
+	env.oldVer = map[string]int{}
+	return modDisjunction(e, env, fv.activeMods(), r, heap, "modifies of "+funcKey(fv.fn))
+}
+
+// heapsOfType: the heaps in which an object referenced by a value of type t lives
+func (w *World) heapsOfType(t types.Type) []string {
+	switch u := t.Underlying().(type) {
+	case *types.Slice:
+		return []string{w.heapArr(u.Elem())}
+	case *types.Map:
+		return []string{w.heapMapDom(u), w.heapMapVal(u)}
+	case *types.Pointer:
+		switch pu := u.Elem().Underlying().(type) {
+		case *types.Struct:
+			var hs []string
+			for i := 0; i < pu.NumFields(); i++ {
+				hs = append(hs, w.heapField(u.Elem(), i))
+			}
+			return hs
+		case *types.Array:
+			return []string{w.heapArr(pu.Elem())}
+		default:
+			return []string{w.heapCell(u.Elem())}
+		}
+	}
+	return nil
+}
+
+func modDisjunction(e *Enc, env *Env, mods []*ModClause, r string, heap string, what string) string {
 	var ds []string
-	for _, m := range fv.activeMods() {
-		if m.Pred == nil {
+	for _, m := range mods {
+		if m.Pred != nil {
+			c := env.child()
+			c.vars[m.Var] = EV{r, tRef}
+			t, _, err := c.elab(m.Pred)
+			if err != nil {
+				e.errorf("%s: %v", what, err)
+				continue
+			}
+			ds = append(ds, t)
 			continue
 		}
-		env := fv.paramEnv(e)
-		env.curVer = map[string]int{}
-		env.oldVer = map[string]int{}
-		env.vars[m.Var] = EV{r, tRef}
-		t, _, err := env.elab(m.Pred)
-		if err != nil {
-			e.errorf("modifies: %v", err)
-			continue
+		for _, o := range m.Objs {
+			t, st, err := env.elab(o)
+			if err != nil {
+				e.errorf("%s: %v", what, err)
+				continue
+			}
+			if e.w.stypeSort(st) == "Slice" {
+				t = "(s_arr " + t + ")"
+			}
+			if heap != "" && st.T != nil {
+				ok := false
+				for _, h := range e.w.heapsOfType(st.T) {
+					if h == heap {
+						ok = true
+					}
+				}
+				if !ok {
+					continue // by typing, this object does not live in that heap
+				}
+			}
+			d := fmt.Sprintf("(= %s %s)", r, t)
+			if m.When != nil {
+				wt, _, err := env.elab(m.When)
+				if err != nil {
+					e.errorf("%s: %v", what, err)
+					continue
+				}
+				d = fmt.Sprintf("(and %s %s)", d, wt)
+			}
+			ds = append(ds, d)
 		}
-		ds = append(ds, t)
 	}
 	switch len(ds) {
 	case 0:
@@ -884,7 +945,7 @@ func (fv *FuncVerifier) enterLoop(e *Enc, h *ssa.BasicBlock) {
 				continue
 			}
 			e.assume(fmt.Sprintf("(forall ((r Ref)) (! (=> (and (isalloc %s r) (not %s)) (= (select %s r) (select %s r))) :pattern ((select %s r))))",
-				e.H0(heapAlloc), fv.modPred(e, "r"), e.H(hn), e.H0(hn), e.H(hn)))
+				e.H0(heapAlloc), fv.modPred(e, "r", hn), e.H(hn), e.H0(hn), e.H(hn)))
 		}
 		for _, hn := range lw {
 			if strings.HasPrefix(hn, "G.") || (strings.HasPrefix(hn, "gh.") && !fv.ghostAllowed(hn)) {
